@@ -256,5 +256,6 @@ def evaluate(ctx, cirq, mods, cases):
 
 
 def replay(ctx, data):
-    print('replay: re-run `./check C01` with the same VERIF_SEED (%s); the failing case is stored in the file' % data.get('seed'))
-    return False
+    """Re-runs the generating stream with the recorded seed/tier and looks for the recorded signature."""
+    import sys
+    return runner.replay_by_rerun(sys.modules[__name__], ctx, data)
